@@ -301,6 +301,7 @@ template<class XP, class X = typename std::pointer_traits<XP*>::element_type, cl
 #ifdef MULTI_BLAS_USE_SDOT  // disable workararound for Apple Accelerate framework bug
 	auto const rr = BLAS(sdot )(n, reinterpret_cast<s const*>(static_cast<X*>(xp)), incx, reinterpret_cast<s const*>(static_cast<Y*>(yp)), incy); std::memcpy(reinterpret_cast<float  *    >(static_cast<R*>(r)), &rr, sizeof(rr)); static_assert(sizeof(rr)==sizeof(*r));
 #else
+	if(n == 0) {*rp = R{}; return;}  // xGEMV returns at once for n == 0 and would leave the result unwritten
 	BLAS(sgemv)('N', 1, n, 1.0F, reinterpret_cast<s const*>(static_cast<X*>(xp)), incx, reinterpret_cast<s const*>(static_cast<Y*>(yp)), incy, 0.0F, reinterpret_cast<s*>(static_cast<R*>(rp)), 1);  // NOLINT(readability-suspicious-call-argument,cppcoreguidelines-pro-type-reinterpret-cast) 
 #endif
 }
@@ -319,6 +320,7 @@ template<class XP, class X = typename std::pointer_traits<XP>::element_type, cla
 		return true;
 	}();
 	// BLAS(cdotu)(reinterpret_cast<Complex_float *>(rp), n, reinterpret_cast<c const*>(static_cast<X*>(xp)), incx, reinterpret_cast<c const*>(static_cast<Y*>(yp)), incy);  // NOLINT(cppcoreguidelines-pro-type-reinterpret-cast)
+	if(n == 0) {*rp = R{}; return;}  // xGEMV returns at once for n == 0 and would leave the result unwritten
 	BLAS(cgemv)('N', 1, n, std::complex<float>{1.0F, 0.0F}, reinterpret_cast<c const*>(static_cast<X*>(xp)), incx, reinterpret_cast<c const*>(static_cast<Y*>(yp)), incy, std::complex<float>{0.0F, 0.0F}, reinterpret_cast<c*>(static_cast<R*>(rp)), 1);  // NOLINT(readability-suspicious-call-argument,cppcoreguidelines-pro-type-reinterpret-cast)
 }                                                                                                                          // NOLINT(cppcoreguidelines-pro-type-reinterpret-cast,google-readability-casting) : adapt types
 template<class XP, class X = typename std::pointer_traits<XP>::element_type, class YP, class Y = typename std::pointer_traits<YP>::element_type, class RP, class R = typename std::pointer_traits<RP>::element_type, enable_if_t<is_z<X>{} && is_z<Y>{} && is_assignable<R&, decltype(0.0 +(X{}*Y{}+X{}*Y{}))>{}, int> =0> void dotu(ssize_t n, XP xp, ptrdiff_t incx, YP yp, ptrdiff_t incy, RP rp) {                BLAS(zdotu)(reinterpret_cast<Complex_double*>(rp), n, reinterpret_cast<z const*>(static_cast<X*>(xp)), incx, reinterpret_cast<z const*>(static_cast<Y*>(yp)), incy);}                                                                                                                          // NOLINT(cppcoreguidelines-pro-type-reinterpret-cast,google-readability-casting) : adapt types
@@ -363,11 +365,13 @@ template<class XP, class X = typename std::pointer_traits<XP>::element_type, cla
 	// if(use_cdotu) {
 	//  Complex_float const rr = BLAS(cdotu)(                                      n, reinterpret_cast<c const*>(static_cast<X*>(x)), incx, reinterpret_cast<c const*>(static_cast<Y*>(y)), incy); std::memcpy(reinterpret_cast<std::array<float , 2>*>(static_cast<R*>(rp))->data(), &rr, sizeof(rr)); static_assert(sizeof(rr)==sizeof(*rp));
 	// } else {
+		if(n == 0) {*rp = R{}; return;}  // xGEMV returns at once for n == 0 and would leave the result unwritten
 		BLAS(cgemv)('N', 1, n, std::complex<float>{1.0F, 0.0F}, reinterpret_cast<c const*>(static_cast<X*>(xp)), incx, reinterpret_cast<c const*>(static_cast<Y*>(yp)), incy, std::complex<float>{0.0F, 0.0F}, reinterpret_cast<c*>(static_cast<R*>(rp)), 1);  // NOLINT(readability-suspicious-call-argument)
 	// }
 }
 template<class XP, class X = typename std::pointer_traits<XP>::element_type, class YP, class Y = typename std::pointer_traits<YP>::element_type, class RP, class R = typename std::pointer_traits<RP>::element_type, enable_if_t<is_z<X>{} && is_z<Y>{} && is_assignable<R&, decltype(/*0.0 +*/ X{}*Y{}+X{}*Y{})>{}, int> =0> void dotu(ssize_t n, XP xp, ptrdiff_t incx, YP yp, ptrdiff_t incy, RP rp) {
 	// auto const rr = BLAS(zdotu)(                                      n, reinterpret_cast<z const*>(static_cast<X*>(xp)), incx, reinterpret_cast<z const*>(static_cast<Y*>(yp)), incy); std::memcpy(reinterpret_cast<std::array<double, 2>*>(static_cast<R*>(rp))->data(), &rr, sizeof(rr)); static_assert(sizeof(rr)==sizeof(*rp));
+	if(n == 0) {*rp = R{}; return;}  // xGEMV returns at once for n == 0 and would leave the result unwritten
 	BLAS(zgemv)('N', 1, n, std::complex<double>{1.0, 0.0}, reinterpret_cast<z const*>(static_cast<X*>(xp)), incx, reinterpret_cast<z const*>(static_cast<Y*>(yp)), incy, std::complex<double>{0.0, 0.0}, reinterpret_cast<z*>(static_cast<R*>(rp)), 1);  // NOLINT(readability-suspicious-call-argument)
 }
 
